@@ -1004,6 +1004,19 @@ def p_groups(ctx):
         if rng.random() < 0.5:
             b.fields.append(A.group_f(other, [A.constraint("mk_a", value=rng.randint(0, 255))]))
         ctx.decls.append(A.packet(ctx.uid("P"), b.fields))
+    # nested uses that constrain the *same* identifier at two levels: the inner use fixes the inner group's
+    # field (which then has no name), the enclosing group declares a field of that name itself, and its
+    # user constrains that one to another value - the innermost constraint belongs to the innermost field
+    tname_ = "mk_t"
+    wt = rng.choice([8, 16])
+    inner = ctx.uid("G")
+    ctx.decls.append(A.group(inner, [A.scalar(tname_, wt), A.scalar(ctx.fid(), 8)]))
+    outer = ctx.uid("G")
+    v_in, v_out = rng.sample(range(1, 1 << wt), 2)
+    ctx.decls.append(A.group(outer, [A.group_f(inner, [A.constraint(tname_, value=v_in)]), A.scalar(tname_, wt),
+                                     A.scalar(ctx.fid(), 8)]))
+    ctx.decls.append(A.packet(ctx.uid("P"), [A.scalar(ctx.fid(), 8), A.group_f(outer, [A.constraint(tname_, value=v_out)])]))
+    ctx.decls.append(A.packet(ctx.uid("P"), [A.group_f(outer, []), A.scalar(ctx.fid(), 16)]))
     ctx.features.add("groups")
 
 
